@@ -295,6 +295,7 @@ def main():
     ap.add_argument('property')
     ap.add_argument('--tier', default=os.environ.get('VERIF_TIER', 'quick'))
     ap.add_argument('--repo', default='/repo')
+    ap.add_argument('--out', default=HERE, help='where evidence/ and replays/ are written (seed evaluation uses a scratch directory)')
     ap.add_argument('--replay')
     ap.add_argument('--keep', action='store_true')
     a = ap.parse_args()
@@ -412,18 +413,18 @@ def main():
         'wall_s': round(wall, 2),
         'violations': len(violations),
     }
-    os.makedirs(os.path.join(HERE, 'evidence'), exist_ok=True)
-    with open(os.path.join(HERE, 'evidence', pid + '.json'), 'w') as f:
+    os.makedirs(os.path.join(a.out, 'evidence'), exist_ok=True)
+    with open(os.path.join(a.out, 'evidence', pid + '.json'), 'w') as f:
         json.dump(ev, f, indent=1)
 
     for f, k in known_hits:
         print('KNOWN-FINDING: property=%s %s (obligation %s)' % (pid, k['what'], f['obligation']))
     rc = 0
     if violations:
-        os.makedirs(os.path.join(HERE, 'replays'), exist_ok=True)
+        os.makedirs(os.path.join(a.out, 'replays'), exist_ok=True)
         for f in violations:
             name = '%s_%s.json' % (pid, slug(f['obligation'])[:100])
-            path = os.path.join(HERE, 'replays', name)
+            path = os.path.join(a.out, 'replays', name)
             rep = {
                 'property': pid, 'obligation': f['obligation'], 'function': f['fn'], 'clause': f['clause'],
                 'message': f['message'], 'verifier_output': f['rendered'],
